@@ -20,6 +20,16 @@ CLAIMS = {
         "environment stubs listed in the evidence (now(), bincode size, base64, ideal signing); each run validates the encoder on ~2% of the explored paths "
         "by running their concrete instances through the real code. Outside the claim: reading old_node from SQLite, the write itself, the parsers.",
    design='DESIGN.md §3 C01'),
+ 'C02': dict(
+   level='model_checking',
+   text="validate_node, validate_edge_deletions and validate_node_deletions are executed symbolically from the current MIR on the same symbolic room "
+        "states as C01 with a symbolic incoming row (node present/absent, entity name present/absent, local version none/same room/other room, "
+        "previous author none/any) and symbolic deletion batches; z3 shows that every accepted row's stated author is granted the needed right at the "
+        "row's own date (all-rows right when it replaces or deletes another author's row, in both rooms on a room change, size within the limit), that "
+        "returned deletion records are unchanged input records, and that a record's verdict does not depend on the rest of the batch or on map order.",
+   note="Kernel only: the model/room filter of GraphDatabase::add_nodes/add_edges, the inline edge right check in process_message and the signature "
+        "thread pool are async bodies over service handles and are outside this claim (DESIGN.md §3 C02). Same trusted base as C01.",
+   design='DESIGN.md §3 C02'),
 }
 
 NA = {
